@@ -300,7 +300,7 @@ class IVFCHashTree:
                 level_fp.seek(offset)
                 level_fp.write(data)
 
-                level_fp.seek(starting_block)
+                level_fp.seek(starting_block * level_data.block_size)
 
                 for x in range(starting_block, ending_block + 1):
                     block_data = level_fp.read(level_data.block_size)
